@@ -148,6 +148,8 @@ impl EWorld {
             b"../new".to_vec(),          // 15 creation target outside
             b"x".to_vec(),               // 16 name of the file inside the sentinel directory
             b"/".to_vec(),               // 17
+            b"..data".to_vec(),          // 18 a legal single component that merely begins with two dots
+            b"...".to_vec(),             // 19 likewise
         ];
         let bad_lookup: Vec<bool> = names.iter().map(|n| n.contains(&b'/')).collect();
         let bad_mutate: Vec<bool> = names.iter().map(|n| n.contains(&b'/') || n == b"." || n == b"..").collect();
@@ -810,7 +812,7 @@ pub fn c06(args: &Args) -> Report {
     let mut rep = args.report();
     let thorough = args.thorough();
     let cfgs = configs(thorough);
-    let (all, setup) = alphabet(18);
+    let (all, setup) = alphabet(20);
     let mut idx = 0u64;
     let mut run = ERun { rep: &mut rep, cl: Client::new() };
     gate(&mut run, &mut idx);
